@@ -504,6 +504,7 @@ class World:
         self.qfields = {}
         self.constants = {}
         self.alias = {}
+        self.mesh = None  # when set: terminals of any other mesh raise StructureMismatch in S
         self.subst = {}  # terminal -> ("expr", image) | ("lin", [(scalar, terminal), ...]), see seval._substituted
         self.weight = _dyadic(rng, 0.125, 1.0, 64)
         self.seed_note = seed_note
